@@ -86,6 +86,7 @@ func main() {
 		nTraces   = flag.Int("traces", 50, "number of passing paths whose models are emitted for native validation")
 		traceEv   = flag.Int("trace-every", 1, "emit a trace for every k-th passing path")
 		smtLog    = flag.String("smt-log", "", "write solver input to this file")
+		raceFlag  = flag.Bool("race", false, "happens-before data-race detection in goroutine mode")
 		poolAdv   = flag.Bool("pool-adversarial", false, "sync.Pool.Get may return any pooled object or a fresh one")
 		verbose   = flag.Bool("v", false, "verbose")
 		jobsFile  = flag.String("jobs", "", "JSON list of harness jobs (per-harness options)")
@@ -186,6 +187,7 @@ func main() {
 		TraceEvery      int            `json:"trace_every"`
 		TimeoutMs       int            `json:"timeout_ms"`
 		NoSummaries     bool           `json:"no_summaries"`
+		Race            bool           `json:"race"`
 	}
 	if *jobsFile != "" {
 		b, err := os.ReadFile(*jobsFile)
@@ -212,7 +214,7 @@ func main() {
 			}
 			poolAdversarial = j.PoolAdversarial
 			o := runOpts{solver: *solverBin, timeoutMs: *timeoutMs, unwind: *unwind, allocLimit: j.AllocLimit, maxPaths: j.MaxPaths,
-				budgetS: j.BudgetS, preempt: j.Preempt, nTraces: *nTraces, traceEvery: *traceEv, verbose: *verbose, noSummaries: j.NoSummaries, incTimeoutMs: *incTimeout, flatSolver: *flatSolver}
+				budgetS: j.BudgetS, preempt: j.Preempt, nTraces: *nTraces, traceEvery: *traceEv, verbose: *verbose, noSummaries: j.NoSummaries || j.Race, race: j.Race, incTimeoutMs: *incTimeout, flatSolver: *flatSolver}
 			if j.Unwind > 0 {
 				o.unwind = j.Unwind
 			}
@@ -246,7 +248,7 @@ func main() {
 			fatal("harness %s not found", h)
 		}
 		res := runHarness(prog, buildPkg, fn, h, runOpts{solver: *solverBin, timeoutMs: *timeoutMs, unwind: *unwind, allocLimit: *allocLim,
-			maxPaths: *maxPaths, budgetS: *budgetS, preempt: *preempt, nTraces: *nTraces, traceEvery: *traceEv, smtLog: *smtLog, verbose: *verbose, incTimeoutMs: *incTimeout, flatSolver: *flatSolver})
+			maxPaths: *maxPaths, budgetS: *budgetS, preempt: *preempt, nTraces: *nTraces, traceEvery: *traceEv, smtLog: *smtLog, verbose: *verbose, incTimeoutMs: *incTimeout, flatSolver: *flatSolver, race: *raceFlag, noSummaries: *raceFlag})
 		results = append(results, res)
 		if len(res.Violations) > 0 {
 			exit = 1
@@ -285,6 +287,7 @@ type runOpts struct {
 	smtLog     string
 	verbose    bool
 	noSummaries bool
+	race        bool
 	incTimeoutMs int
 	flatSolver   string
 }
@@ -362,6 +365,10 @@ func runHarness(prog *ssa.Program, buildPkg func(*ssa.Package), fn *ssa.Function
 	for {
 		e.beginPath()
 		in.resetPath()
+		in.race = nil
+		if o.race {
+			in.race = newRaceDet()
+		}
 		resetSync()
 		recvWaiting = map[*G][]*ChanObj{}
 		outcome := in.runPath(func() {
